@@ -15,6 +15,127 @@ def H(name, tier="q", bounds=""):
 
 
 PROPS = {
+    "C18": {
+        "m": None,
+        "k": [
+            H("c18::c18_year_month_routes_2000", "q", "PlainYearMonth from constructor / from_partial with any day / PlainDate::to_plain_year_month: any date in 1999..=2001"),
+            H("c18::c18_year_month_limits", "q", "PlainYearMonth::new_with_overflow: years within 2 of each limit and around 0, any u8 month, both overflow modes"),
+            H("c18::c18_month_day", "q", "PlainMonthDay::new_with_overflow: any u8 month and day, both overflow modes"),
+            H("c18::c18_month_day_from_date_2000", "q", "PlainDate::to_plain_month_day: any date in 1999..=2001"),
+        ],
+        "k_timeout": {"quick": 1800, "thorough": 3000},
+        "bounds": {"all": "ISO calendar; dates in a 3-year window; year-month limits probed within 2 years of each bound"},
+        "outside": "string routes (parser stub not built), year-month add/subtract/until/since, explicit reference arguments",
+    },
+    "C17": {
+        "m": None,
+        "k": [
+            H("c17::c17_date_from_partial_2000", "q", "PlainDate::from_partial (ISO): year in 1999..=2001 or absent, month any u8 or absent, monthCode any M dd [L] or absent, day any u8 or absent, overflow absent/constrain/reject"),
+            H("c17::c17_date_from_partial_limits", "t", "same with year 275759..=275761 (upper limit)"),
+            H("c17::c17_date_with_2000", "q", "PlainDate::with on any receiver date in 1999..=2001 with the same symbolic record"),
+            H("c17::c17_time_from_partial", "q", "PlainTime::from_partial: six independent Option fields over their full u8/u16 ranges, all overflow modes"),
+            H("c17::c17_time_with", "q", "PlainTime::with on any receiver time"),
+        ],
+        "k_timeout": {"quick": 1800, "thorough": 3000},
+        "bounds": {"all": "ISO calendar; era/eraYear absent; receivers and years in 3-year windows"},
+        "outside": "PlainDateTime / PlainYearMonth / ZonedDateTime partials, era-based records and non-ISO calendars",
+    },
+    "C15": {
+        "m": None,
+        "k": [
+            H("c15::c15_tzif_get", "q", "Tzif::get on symbolic TZif v2 tables: 1..=3 strictly ascending transitions in +-4e9 s, 2..=3 local-time types with |utoff| <= 26 h, query second anywhere before the last transition"),
+        ],
+        "k_timeout": {"quick": 1800, "thorough": 3000},
+        "bounds": {"all": "tables of at most 3 transitions / 3 types, all values symbolic; binary search loops unwound 5"},
+        "outside": "PARTIAL: local-time -> candidate records (v2_estimate_tz_pair), POSIX footer evaluation, real zoneinfo files, provider cache purity, file I/O and the identifier check are not covered yet",
+    },
+    "C13": {
+        "m": None,
+        "k": [
+            H("c13::c13_wall_to_instant_3h", "q", "synthetic zone, one transition at any second of 2000-06-15, whole-minute offsets before/after in +-3 h (gaps/overlaps up to 6 h), local date-time 2000-06-13..17 at ns resolution, all 4 disambiguations"),
+            H("c13::c13_wall_to_instant_26h", "q", "same with offsets any second count in +-26 h (gaps/overlaps up to 52 h)"),
+            H("c13::c13_instant_to_wall", "q", "same zones, instant anywhere in 2000-06-14..16: wall-clock reading = instant + offset in force"),
+        ],
+        "k_timeout": {"quick": 1800, "thorough": 3000},
+        "bounds": {"all": "one-transition synthetic zones with solver-chosen transition second and offsets; receiver dates in a 5-day window around the transition"},
+        "outside": "offset-option handling (InterpretISODateTimeOffset), offset extraction from parsed strings, fixed-offset zones, real IANA data (see C15), two-transition zones",
+    },
+    "C06": {
+        "m": "specs.c06",
+        "k": [],
+        "bounds": {"all": "Engine M: epoch_milliseconds for every instant; NormalizedTimeDuration difference/add_days for every operand in range; "
+                          "AddInstant and AddTime (PlainTime::add_to_time) for every receiver and every duration whose six fields are integral doubles with |field| < 2^53 - 1000"},
+        "outside": "duration fields at or above 2^53 (in particular the f64 -> i64 saturating casts above 2^63 ns in PlainTime::add) and until/since balancing: Kani harnesses, not built yet",
+    },
+    "C12": {
+        "m": None,
+        "k": [
+            H("c12::c12_offset_ascii_6", "q", "UtcOffset::from_str on every ASCII string of <= 6 bytes vs the minute-precision UTC offset grammar"),
+            H("c12::c12_offset_ascii_8", "t", "same, <= 8 bytes (reaches the sub-minute suffix forms)"),
+            H("c12::c12_offset_non_ascii", "q", "'+' X '1:00' and '+1' X ':00' with X any Unicode scalar value (non-ASCII numerals must be rejected, no panic)"),
+            H("c12::c12_month_code", "q", "MonthCode::try_from_utf8 on every byte string of <= 5 bytes"),
+            H("c12::c12_tz_identifier_5", "q", "TimeZone::try_from_identifier_str on every ASCII string of <= 5 bytes vs offset | Z | IANA-name shape"),
+        ],
+        "k_timeout": {"quick": 1500, "thorough": 3000},
+        "bounds": {"all": "repo-owned character parsers only, strings up to the stated byte lengths; loops unwound to length + slack with unwinding assertions on"},
+        "outside": "PARTIAL: the ixdtf crate's character-level grammar (text -> parse record) is not executed (DESIGN.md cut 4); per-type post-parse rules over "
+                   "arbitrary records are not built yet; longer strings; Calendar::from_utf8 case-insensitivity",
+    },
+    "C04": {
+        "m": "specs.c04",
+        "k": [],
+        "bounds": {"all": "Engine M over the real AddISODate / DifferenceISODate / BalanceISOYearMonth MIR: every representable receiver date (cycle-decomposed years), "
+                          "durations with |years| <= 600000, |weeks| <= 3e7 and months/days such that the intermediate year is within +-300000 and the target day within +-3e8; "
+                          "diff: every pair of representable dates, largestUnit day/week (month/year: see inconclusive notes), loops unrolled 14 with unwinding obligations; "
+                          "duration fields are exact-integer doubles (|v| <= 2^53)"},
+        "outside": "PlainDate::add/until/since wrappers (calendar dispatch, option resolution, Duration construction) are not executed by Engine M; "
+                   "IsValidDuration is used through its summary (decided by C09); compositional steps rely on C01 (BalanceISODate for all arguments)",
+    },
+    "C05": {
+        "m": "specs.c05",
+        "k": [],
+        "bounds": {"quick": "Engine M: BalanceTime for |fields| <= 2^53, AddTime for every time and |duration| < 2^53 s, from_epoch_nanos for every instant, "
+                            "RoundISODateTime for every representable date-time x 9 modes for a covering set of the admissible (unit, increment) pairs",
+                   "thorough": "as quick with all 75 admissible (unit, increment) pairs"},
+        "outside": "PlainDateTime::add/until/since wrappers and DifferenceISODateTime (calendar + Duration plumbing) - not executed by Engine M yet",
+    },
+    "C09": {
+        "m": None,
+        "k": [
+            H("c09::c09_valid_sign", "q", "Duration::new: all ten fields integral in -1000..=1000 (symbolic): valid iff sign-uniform"),
+            H("c09::c09_valid_calendar_fields", "q", "years/months/weeks = arbitrary finite integral doubles: valid iff each |v| < 2^32"),
+            H("c09::c09_valid_days_hours", "q", "days, hours = arbitrary non-negative finite integral doubles: valid iff exact total < 2^53 s"),
+            H("c09::c09_valid_minutes_seconds", "q", "minutes, seconds likewise"),
+            H("c09::c09_valid_seconds_millis", "q", "seconds, milliseconds likewise (sub-second carry into the 2^53 s bound)"),
+            H("c09::c09_valid_micros_nanos", "q", "microseconds, nanoseconds, non-positive"),
+            H("c09::c09_valid_days_to_seconds", "t", "days, hours, minutes, seconds all symbolic at once"),
+            H("c09::c09_valid_seconds_to_nanos", "t", "seconds .. nanoseconds all symbolic at once"),
+            H("c09::c09_valid_days_and_nanos", "q", "days and nanoseconds: arbitrary finite integral doubles of any sign and magnitude"),
+            H("c09::c09_sign_ops", "q", "negated/abs/sign/is_zero: ten fields 0..=1000 times a symbolic sign"),
+            H("c09::c09_compare_no_relative", "q", "compare(None): days, microseconds, nanoseconds in +-100000 on both sides (unbalanced), order of exact i128 totals"),
+        ],
+        "k_timeout": {"quick": 1500, "thorough": 3000},
+        "bounds": {"all": "fields are symbolic doubles constrained to finite integral values (any magnitude for the validity harnesses); loops over the 10 fields unwound 12"},
+        "outside": "add/subtract/round/total without relativeTo (i128 div_rem chains under CBMC) - not built yet; non-integral field values",
+    },
+    "C10": {
+        "m": None,
+        "k": [
+            H("c10::c10_diff_settings", "q", "GetDifferenceSettings: operation x Option<Unit> (12) x Option<Unit> (11, smallestUnit=auto apart) x any increment 1..=1e9 or absent x mode or absent x the crate's six caller configurations, all symbolic at once"),
+            H("c10::c10_duration_options", "q", "Duration.round options: both Option<Unit> x any increment x mode x existing largest unit, all symbolic"),
+            H("c10::c10_datetime_options", "q", "PlainDateTime/ZonedDateTime.round options, all symbolic"),
+            H("c10::c10_instant_options_ns", "t", "Instant.round options, unit nanosecond, every increment 1..=1e9 (symbolic) against the per-day maximum"),
+            H("c10::c10_instant_options_us", "q", "unit microsecond"),
+            H("c10::c10_instant_options_ms", "q", "unit millisecond"),
+            H("c10::c10_instant_options_s", "q", "unit second"),
+            H("c10::c10_instant_options_min", "q", "unit minute"),
+            H("c10::c10_instant_options_h", "q", "unit hour"),
+            H("c10::c10_instant_options_other", "q", "smallestUnit absent, auto or a date unit"),
+            H("c10::c10_to_string_options", "q", "toString precision/smallestUnit/mode: every Option<Unit>, Auto or any u8 digit count"),
+        ],
+        "bounds": {"all": "the complete finite option matrix of every resolver incl. every increment value 1..=1e9 (symbolic u32); no unrolling involved"},
+        "outside": "ad-hoc validation in PlainTime::round / PlainYearMonth::until (float increment conversion) and the observable effect of the defaults through each public method",
+    },
     "C02": {
         "m": "specs.c02",
         "k": [],
